@@ -93,6 +93,17 @@ func GenWF(o WFOpts) *rapid.Generator[*Spec] {
 		if o.Names > 0 && b.pct(o.Names, "names") {
 			ApplyNames(t, b.s)
 		}
+		// injector files whose build constraint is more than the bare tag, yet
+		// holds exactly when wireinject is set (on this toolchain and platform)
+		for k := range b.s.Injectors {
+			fi := b.s.Injectors[k].File
+			if _, done := b.s.InjConstraints[fi]; !done && b.pct(12, "injconstraint") {
+				if b.s.InjConstraints == nil {
+					b.s.InjConstraints = map[int]string{}
+				}
+				b.s.InjConstraints[fi] = b.pick([]string{"wireinject && go1.18", "go1.18 && wireinject", "wireinject && (linux || !linux)", "wireinject && !zznever", "wireinject && (go1.18 || zznever)"}, "constraint")
+			}
+		}
 		// a package-level name that coincides with the field name every
 		// struct literal of a value expression uses as a key
 		for pi := 1; pi < len(b.s.Pkgs); pi++ {
